@@ -48,6 +48,8 @@ pub(in super::super) struct BlockReader<'r, 's, R> {
 	/// Represents whether we were hinted deserialize_ignored_any. If yes, we
 	/// can use the block length to skip the block.
 	ignored: bool,
+	/// Whether we have read the end of the sequence (zero-sized block)
+	finished: bool,
 }
 impl<'r, 's, R> BlockReader<'r, 's, R> {
 	pub(in super::super) fn new(
@@ -61,7 +63,22 @@ impl<'r, 's, R> BlockReader<'r, 's, R> {
 			n_read: 0,
 			allowed_depth,
 			ignored: hinted_ignored,
+			finished: false,
 		}
+	}
+	/// To be called after a visitor that only pulls the number of elements it
+	/// expects (tuple) has returned: makes sure that the sequence has no more
+	/// elements and that its end has been read
+	pub(in super::super) fn expect_end<'de>(&mut self) -> Result<(), DeError>
+	where
+		R: ReadSlice<'de>,
+	{
+		if !self.finished && self.has_more()? {
+			return Err(DeError::new(
+				"Array has more elements than the tuple it is deserialized as",
+			));
+		}
+		Ok(())
 	}
 	fn has_more<'de>(&mut self) -> Result<bool, DeError>
 	where
@@ -71,7 +88,10 @@ impl<'r, 's, R> BlockReader<'r, 's, R> {
 			None => {
 				let new_len = read_block_len(self.reader, self.ignored)?;
 				match new_len {
-					None => return Ok(false),
+					None => {
+						self.finished = true;
+						return Ok(false);
+					}
 					Some(new_len) => {
 						let l = new_len.get();
 						let n_read = self.n_read.saturating_add(l);
